@@ -27,10 +27,10 @@ class DeferredBase(CheckDef):
     programs = {
         'quick': [('%s;%s/%s;%s/%s;%s' % (S, S, S, S, R, R), {'mk': 3}, 900, 'random'), ('0;1/1;0/2,3,4,5/2,5', {'mk': 1}, 600, 'random'),
                   ('%s;%s/%s/2;2' % (S, S, S), {'mk': 3, 'maxthrows': 1}, 600, 'random'), ('%s/%s/2;2;2/3;4;3' % (S, S), {'mk': 3}, 600, 'pct'),
-                  ('%s;%s/2;2/2;3' % (S, S), {'mk': 2}, 400, 'random'), ('0;0/2;2;2/3;4;3', {'mk': 3, 'help': 1}, 400, 'solo'), ('0;0/2;2/2;2/0', {'mk': 3, 'help': 1}, 400, 'solo')],
+                  ('%s;%s/2;2/2;3' % (S, S), {'mk': 2}, 400, 'random'), ('0;0/2;2;2/3;4;3', {'mk': 3, 'help': 1}, 400, 'solo'), ('0;0/2;2/2;2/0', {'mk': 3, 'help': 1}, 400, 'solo'), ('0/0/2;2', {'mk': 3}, 3000, 'pb1')],
         'thorough': [('%s;%s/%s;%s/%s;%s' % (S, S, S, S, R, R), {'mk': 3}, 25000, 'random'), ('0;1/1;0/2,3,4,5/2,5', {'mk': 1}, 15000, 'random'),
                      ('%s;%s/%s/2;2' % (S, S, S), {'mk': 3, 'maxthrows': 1}, 15000, 'random'), ('%s/%s/2;2;2/3;4;3' % (S, S), {'mk': 3}, 15000, 'pct'),
-                     ('%s;%s/2;2/2;3' % (S, S), {'mk': 2}, 10000, 'random'), ('0;0/2;2;2/3;4;3', {'mk': 3, 'help': 1}, 10000, 'solo'), ('0;0/2;2/2;2/0', {'mk': 3, 'help': 1}, 10000, 'solo'),
+                     ('%s;%s/2;2/2;3' % (S, S), {'mk': 2}, 10000, 'random'), ('0;0/2;2;2/3;4;3', {'mk': 3, 'help': 1}, 10000, 'solo'), ('0;0/2;2/2;2/0', {'mk': 3, 'help': 1}, 10000, 'solo'), ('0/0/2;2', {'mk': 3}, 300000, 'pb2'), ('1/0/2;3', {'mk': 3}, 300000, 'pb2'),
                      ('%s;%s/%s;%s/%s;%s/2;2;5' % (S, S, S, S, S, S), {'mk': 3}, 25000, 'random'), ('%s;%s/%s;%s/2;3' % (S, S, S, S), {'mk': 0}, 10000, 'random')],
     }
     assumptions = ['bounded: exhaustive TLC results for the configurations named; larger ones by simulation and validated executions',
